@@ -315,6 +315,9 @@ func TestVerifC07(t *testing.T) {
 			run.Sample(map[string]interface{}{"case": c, "reference_signed_locator": signed})
 		}
 	})
+
+	// the +R-without-+A route (verification delegated to the remote cluster)
+	c07RemoteStream(t, run, hs, root, baseCluster)
 }
 
 func c07R(r bool) string {
